@@ -573,8 +573,28 @@ def _writes(st, owner=None):
     return None
 
 
+def _int_guard(stmts, arg, flag, where):
+    """the call `_assert_integers(<arg>, '<arg>')` (exactly one) becomes `if <flag>: raise ValueError()`"""
+    text = f"_assert_integers({arg},'{arg}')"
+    out, n = _replace_stmt(stmts, lambda s: isinstance(s, ast.Expr) and _norm(s) == text,
+                           lambda s: ast.parse(f'if {flag}:\n    raise ValueError()').body)
+    if n != 1:
+        raise Unsupported(f'{where}: exactly one call {text} expected')
+    return out
+
+
 def build_T13sa(tree):
     out, shas = [], []
+
+    # ---- the shared guard of the integer-valued arguments
+    fn = find_func(tree, '_assert_integers')
+    body = strip_doc(fn.body)
+    shas.append(span_sha(body))
+    if len(body) != 1 or not isinstance(body[0], ast.If) or _norm(body[0].test) != 'np.any(np.mod(np.asarray(values,dtype=float),1)!=0)':
+        raise Unsupported('_assert_integers is no longer `if np.any(np.mod(np.asarray(values, dtype=float), 1) != 0): raise`')
+    out.append(translate_block(_rewrite(body, {'np.any(np.mod(np.asarray(values,dtype=float),1)!=0)': 'some_fractional'}) + [_ret('True')],
+                               'integersCheck', [('some_fractional', 'bool')], {},
+                               doc='`_assert_integers`: ValueError when one of the numbers has a fractional part'))
 
     # ---- TcoordContentItem.__init__: the if / elif / else chain over the three arguments
     fn = find_func(tree, 'TcoordContentItem.__init__')
@@ -588,6 +608,7 @@ def build_T13sa(tree):
     stmts, n = _replace_stmt([chain], lambda s: _writes(s, 'self') is not None, branch_ret)
     if n != 3 or len(set(order)) != 3:
         raise Unsupported('TcoordContentItem.__init__: three branches writing three different attributes expected')
+    stmts = _int_guard(stmts, 'referenced_sample_positions', 'fractional_1', 'TcoordContentItem.__init__')
     tbl = {}
     args = []
     for kw in order:
@@ -601,9 +622,11 @@ def build_T13sa(tree):
     params = []
     for i in (1, 2, 3):
         params += [(f'has_{i}', 'bool'), (f'n_{i}', 'int')]
+    params.append(('fractional_1', 'bool'))
     out.append(translate_block(_rewrite(stmts, tbl), 'tcoordArgCheck', params, {},
                                doc='`TcoordContentItem.__init__`: which of the three time-point arguments is written (1, 2, 3 in '
-                                   'source order; has_i = argument i is not None, n_i = its length); an empty one and none at all are refused'))
+                                   'source order; has_i = argument i is not None, n_i = its length, fractional_1 = a sample position has a fractional part); '
+                                   'an empty one, a fractional sample position and none at all are refused'))
     out.append(lean_table('tcoordBranchKeywords', 'List String', [_s(k) for k in order],
                           doc='`TcoordContentItem.__init__`: the attribute written by branch 1, 2, 3'))
     out.append(lean_table('tcoordBranchArgs', 'List String', [_s(k) for k in args],
@@ -650,10 +673,12 @@ def build_T13sa(tree):
         stmts, n = _replace_stmt(stmts, lambda s: _norm(s) == f'{arg}=list({arg})', lambda s: [])
         if n != 1:
             raise Unsupported(f'ImageContentItem.__init__: {arg} = list({arg}) expected exactly once')
+        stmts = _int_guard(stmts, arg, 'fractional', 'ImageContentItem.__init__')
         tbl = {f'{arg}isnotNone': 'given', f'np.ndim({arg})': 'n_axes', f'len({arg})': 'n'}
-        out.append(translate_block(_rewrite(stmts, tbl) + [_ret('0')], lean, [('given', 'bool'), ('n_axes', 'int'), ('n', 'int')], {},
+        out.append(translate_block(_rewrite(stmts, tbl) + [_ret('0')], lean,
+                                   [('given', 'bool'), ('n_axes', 'int'), ('n', 'int'), ('fractional', 'bool')], {},
                                    doc=f'`ImageContentItem.__init__`: 1 = {kw} written (a sequence, n_axes > 0, as a list; a scalar as it '
-                                       'is), 0 = not written; an empty sequence is refused'))
+                                       'is), 0 = not written; an empty sequence and a number with a fractional part are refused'))
 
     # ---- WaveformContentItem.__init__: channels
     fn = find_func(tree, 'WaveformContentItem.__init__')
@@ -663,12 +688,13 @@ def build_T13sa(tree):
     stmts, n = _replace_stmt([g], lambda s: _norm(s) == flat, lambda s: [_ret('1')])
     if n != 1 or g.orelse:
         raise Unsupported('WaveformContentItem.__init__: the flattening of the channel pairs changed')
+    stmts = _int_guard(stmts, 'referenced_waveform_channels', 'fractional', 'WaveformContentItem.__init__')
     tbl = {'referenced_waveform_channelsisnotNone': 'given', 'len(referenced_waveform_channels)': 'n',
            'any((len(pair)!=2forpairinreferenced_waveform_channels))': 'some_not_pair'}
     out.append(translate_block(_rewrite(stmts, tbl) + [_ret('0')], 'waveformChannelsCheck',
-                               [('given', 'bool'), ('n', 'int'), ('some_not_pair', 'bool')], {},
+                               [('given', 'bool'), ('n', 'int'), ('some_not_pair', 'bool'), ('fractional', 'bool')], {},
                                doc='`WaveformContentItem.__init__`: 1 = the flattened pairs are written, 0 = nothing; an empty '
-                                   'list and items that are not pairs are refused'))
+                                   'list, items that are not pairs and numbers with a fractional part are refused (in this order)'))
 
     # ---- NumContentItem.__init__: type guard
     fn = find_func(tree, 'NumContentItem.__init__')
